@@ -157,6 +157,9 @@ def threadTok (seq : Bool) (cap : Nat) (s : ThreadMon) (tid : Nat) (tok : String
     | _ => s.flag s!"malformed token {tok}"
   else if tok == "IDRANGE" then s.flag "ids: GetThreadID returned a value outside [0, capacity)"
   else if tok == "IDCHG" then s.flag "ids: GetThreadID returned a different ID on a later call of the same thread"
+  else if tok.startsWith "LFREE" then
+    let v := (tok.drop 5).toString
+    s.flag s!"list: the list node holding the vector handed to guard {v} was freed while the guard is alive"
   else if tok.startsWith "IDDUP" then s.flag s!"ids: two running threads hold ID {(tok.drop 5).toString}"
   else if tok.startsWith "HBLIVE" then
     s.flag s!"heartbeat: ID {(tok.drop 6).toString} was handed to a new thread while a heartbeat of an earlier owner is unexpired"
